@@ -43,7 +43,7 @@ for f,rel in m['demo_files'].items():
     os.rename(os.path.join(wt,rel)+'.off',os.path.join(wt,rel))
 PY
 ( eval "timeout 900 $democmd" ) >>$log 2>&1; patched_demo=$?
-cleanup
+cleanup; cd /
 status="clean_demo=$clean_demo build=$build suite=$suite patched_demo=$patched_demo"
 if [ $clean_demo -eq 0 ] && [ $build -eq 0 ] && [ $suite -eq 0 ] && [ $patched_demo -ne 0 ]; then
   mkdir -p /verif/seeded/$dest
